@@ -1,12 +1,79 @@
 /-
   C11 — tie to the Python source: the signature the stream scanner of the model searches for is
-  `MESSAGE_START_SIGNATURE` of `pybufrkit/constants.py` (regenerated on every check).
+  `MESSAGE_START_SIGNATURE` of `pybufrkit/constants.py` (regenerated on every check), and the WHOLE scanner:
+  `decoder.generate_bufr_message` is translated by `harness/py2lean.py` into `Gen/PyDecoder.lean` on every check (the
+  code it calls — `decoder.process`, `ScriptRunner`, `sr.run`, the table-definition side effect, and which exceptions are
+  instances of `PyBufrKitError` — is a record `Env` of callbacks; a generator is "the values yielded + how it ended");
+  `C11_src_generate_eq` proves, for every byte string, every flag combination and all callbacks, that it does what the
+  model's `scan` of `Msg/Stream.lean` says (on which the other C11 / C12 / C17 stream theorems rest).
+  Lemmas: `Lemmas/StreamSrc.lean`.
 -/
 import BufrModel.Msg.Stream
 import BufrModel.Gen.PyConstants
+import BufrModel.Gen.PyDecoder
+import BufrModel.Lemmas.StreamSrc
 namespace Bufr.Stream
 open PyGen.constants
 
-theorem C11_src_const_start_signature : sig = MESSAGE_START_SIGNATURE := by decide
+theorem C11_src_const_start_signature : sig = PyGen.constants.MESSAGE_START_SIGNATURE := by decide
+
+/-- the constant as `decoder.py` imports it -/
+theorem C11_src_const_start_signature_decoder : sig = PyGen.decoder.MESSAGE_START_SIGNATURE := by decide
+
+
+open PyGen.decoder PyGen.decoder.generate_bufr_message in
+/-- **The translated stream scanner is the model's `scan`.**  For every byte string `s`, every combination of
+    `info_only`, `continue_on_error` and `filter_expr` (`None`, `''`, or an expression whose `ScriptRunner` object is
+    `sr`), and ALL callbacks `env` (`decoder.process`, `sr.run`, which exceptions are `PyBufrKitError`s) that satisfy
+    `CbOk` (`length.value ≥ 0`; the table-definition side effect does not raise), with
+    `r = scan (srcDec env) (srcCfg env info_only continue_on_error filter_expr sr) s`:
+      * `r.2 = done`   : the generator yields exactly the messages of `r.1` (in info-only mode with `serialized_bytes`
+                          replaced by the slice of the stream) and is exhausted;
+      * `r.2 = error e`: it yields those messages, then an exception `x` of the model's class `e` leaves it
+                          (a library error without `continue_on_error`, or any non-library exception);
+      * `r.2 = loops`  : an iteration advanced by 0 (declared total length 0 in info-only mode or in the skip branch,
+                          empty `serialized_bytes`): the fuel of the translated `while` loop (`len(s) + 1`) runs out,
+                          after the model's items have been yielded — the real generator never terminates; in the other
+                          two cases the fuel suffices, i.e. the real loop terminates. -/
+theorem C11_src_generate_eq (env : Env) (hcb : CbOk env) (s : Bytes) (info_only continue_on_error : Bool)
+    (filter_expr : Option (List Char)) (sr : Py.Obj)
+    (hsr : filter_expr.isSome = true → env.ScriptRunner filter_expr = .ok sr) :
+    Agrees env info_only (scan (srcDec env) (srcCfg env info_only continue_on_error filter_expr sr) s)
+      (generate_bufr_message env s info_only continue_on_error filter_expr) :=
+  generate_sim env hcb s info_only continue_on_error filter_expr sr hsr
+
+open PyGen.decoder PyGen.decoder.generate_bufr_message in
+/-- the usual case spelled out: when the model's scan ends normally the translated generator returns exactly its items -/
+theorem C11_src_generate_done (env : Env) (hcb : CbOk env) (s : Bytes) (info_only continue_on_error : Bool)
+    (filter_expr : Option (List Char)) (sr : Py.Obj)
+    (hsr : filter_expr.isSome = true → env.ScriptRunner filter_expr = .ok sr)
+    (hd : (scan (srcDec env) (srcCfg env info_only continue_on_error filter_expr sr) s).2 = .done) :
+    generate_bufr_message env s info_only continue_on_error filter_expr =
+      (yieldsOf info_only (scan (srcDec env) (srcCfg env info_only continue_on_error filter_expr sr) s).1, .ok ()) := by
+  have h := C11_src_generate_eq env hcb s info_only continue_on_error filter_expr sr hsr
+  simp only [Agrees, hd] at h
+  exact h
+
+open PyGen.decoder PyGen.decoder.generate_bufr_message in
+/-- a filter expression whose `ScriptRunner` cannot be built: the generator raises at its first `next()` -/
+theorem C11_src_generate_bad_filter (env : Env) (s : Bytes) (io coe : Bool) (x : List Char) (e : Py.Exc)
+    (h : env.ScriptRunner (some x) = .error e) :
+    generate_bufr_message env s io coe (some x) = ([], .error e) :=
+  generate_bad_filter env s io coe x e h
+
+open PyGen.decoder PyGen.decoder.generate_bufr_message in
+/-- `s.find(MESSAGE_START_SIGNATURE, idx_start)` is the model's `findSig` on the rest of the stream -/
+theorem C11_src_find_signature (s : Bytes) (j : Nat) (h : j ≤ s.length) :
+    Py.seqFind s PyGen.decoder.MESSAGE_START_SIGNATURE (j : Int) =
+      match findSig (s.drop j) with | some k => ((j + k : Nat) : Int) | none => -1 :=
+  seqFind_findSig s j h
+
+/-- the hypotheses are satisfiable: callbacks that always fail with a library error -/
+example : ∃ env : PyGen.decoder.generate_bufr_message.Env, CbOk env :=
+  ⟨{ ScriptRunner := fun _ => .ok {}, decoder_process := fun _ _ => .error (.raised "PyBufrKitError"),
+     sr_run := fun _ _ => .ok true, table_definition_process := fun _ => .ok ({}, {}, {}),
+     table_cache_invalidate := .ok (), table_cache_add_extra_entries := fun _ _ => .ok (),
+     isinstance_PyBufrKitError := fun e => decide (e = .raised "PyBufrKitError") },
+   ⟨(fun _ _ _ h => by cases h), ⟨fun _ => ({}, {}, {}), fun _ => rfl⟩, rfl, fun _ _ => rfl⟩⟩
 
 end Bufr.Stream
